@@ -200,6 +200,10 @@ class Builtins:
                 if ok and n in ("str", "bytes", "bytearray"):
                     ok = (v.is_bytes == (n != "str"))  # type: ignore
                 return z3.BoolVal(ok)
+            if isinstance(v, VExt) and v.kind.split(".")[-1] in ("Exception", "BaseException") and n.endswith("Error"):
+                # an exception object of statically unknown class: its dynamic class is a free predicate
+                f = z3.Function("exc_is_" + n, z3.IntSort(), z3.BoolSort())
+                return f(v.ident)
             if n in ("SyntaxError", "Exception", "ValueError", "UnicodeDecodeError", "OSError"):
                 from .stmts import exc_matches
                 return z3.BoolVal(isinstance(v, VExc) and exc_matches(v.cls_name, n))
@@ -733,8 +737,7 @@ class Builtins:
             fr0 = fr0.parent
         spec = None
         if fr0 is not None and fr0.contract is not None:
-            fr0.loop_counter += 1
-            spec = fr0.contract.loops.get(fr0.loop_counter)
+            spec = self.loop_spec(fr0, g)
         res = z3.Const(self.path.fresh_name("$mapjoin"), SEQ)
         if spec is not None and not spec.exit_only and self.path.choose():
             i = z3.Int(self.path.fresh_name(spec.index))
@@ -937,6 +940,18 @@ def h_old(it: Any, node: ast.Call, fr: Frame) -> V:
     raise Unsupported("old() value was not captured")
 
 
+def h_pre(it: Any, node: ast.Call, fr: Frame) -> V:
+    """pre(expr) in a loop-body lemma: the value of expr at the start of the iteration."""
+    key = ast.dump(node.args[0])
+    f: Optional[Frame] = fr
+    while f is not None:
+        pres = getattr(f, "pres", None)
+        if pres is not None and key in pres:
+            return pres[key]
+        f = f.parent
+    raise Unsupported("pre() value was not captured")
+
+
 def h_written(it: Any, node: ast.Call, fr: Frame) -> V:
     s = it.ev(node.args[0], fr)
     if not isinstance(s, VStream):
@@ -1022,7 +1037,7 @@ def h_dict_written(it: Any, node: ast.Call, fr: Frame) -> V:
 
 
 HELPERS: Dict[str, Callable[..., V]] = {
-    "pred": h_pred, "final": h_final, "dict_writes": h_dict_writes, "dict_written": h_dict_written,
+    "pred": h_pred, "final": h_final, "pre": h_pre, "dict_writes": h_dict_writes, "dict_written": h_dict_written,
     "implies": h_implies, "forall": h_forall, "exists": h_exists, "old": h_old, "written": h_written,
     "appended": h_appended, "appended_count": h_appended_count, "is_kind": h_is_kind,
 }
